@@ -4,6 +4,7 @@ HARNESSES = [
     COMMON["dec12"]("record12_mem", [], COMMON["dec12_cases"](64, 40, dtls_only=("dtls10", "dtls12n")) + COMMON["dec12_cases"](96, 56, tier="thorough"), checks=M),
     COMMON["dec13"]("record13_mem", [], ns=((48, "quick"), (96, "thorough")), checks=M),
     COMMON["api_recv"](only=None),
+    COMMON["hs_dispatch"](),
 ]
 PROPERTY = dict(level='model_checking',
     claim="CBMC's memory-safety instrumentation (bounds, pointer, div-by-zero, shift) on the real record decoders for every input within the bound from every RI-state; every loop has a checked unwinding bound (termination within the bound).",
